@@ -167,7 +167,7 @@ def runJar (jar : Jar) (evs : List Event) : Jar := evs.foldl stepJar jar
 
 /-! ### cookies.get_expiration_ts / is_expired (the clock and the date parser are the only parameters) -/
 
-def isSpace (c : UInt8) : Bool := c = 9 || c = 10 || c = 11 || c = 12 || c = 13 || c = 32 || c = 28 || c = 29 || c = 30 || c = 31
+def isSpace (c : UInt8) : Bool := c = 9 || c = 10 || c = 11 || c = 12 || c = 13 || c = 32   -- Py_ISSPACE (ASCII str fast path of int())
 
 def strip (s : Bytes) : Bytes := ((s.dropWhile isSpace).reverse.dropWhile isSpace).reverse
 
